@@ -362,7 +362,8 @@ theorem member_iff (b : Builder) (e : Ep) :
 def memberSpec (b : Builder) (e : Ep) : Prop :=
   -- for that port
   e.port = b.portName ∧
-  -- with a usable first address: empty (a gateway will stand in), a unix socket (port 0) or an IP
+  -- with a first address that is empty (the endpoint was reported without one: it is a member as reported; only in
+  -- multi-network meshes can a gateway stand in for it), a unix socket (port 0), or a well-formed IP (not a host name)
   (∃ a rest, e.addrs = a :: rest ∧ (a = "" ∨ e.eport = 0 ∨ validIP a = true)) ∧
   -- matching the subset labels
   (∀ kv ∈ b.subset, e.labels.lookup kv.1 = some kv.2) ∧
